@@ -34,7 +34,7 @@ def confirm(sid):
         if m: pdir = m.group(1).rstrip('/')
         res['demo_pkg_dir'] = pdir
         shutil.copy(demo, os.path.join(wt, pdir, os.path.basename(demo)))
-        test = f"go test -vet=off -count=1 -run '^TestDemo{sid}$' ./{pdir}"
+        test = f"go test -vet=off -count=1 -run '^TestDemo{sid[:3]}$' ./{pdir}"
         rc0, out0 = sh(test, cwd=wt, timeout=600)
         res['demo_without_change'] = 'pass' if rc0 == 0 else 'FAIL'
         rc, out = sh(f'git apply {d}/patch.diff', cwd=wt)
@@ -113,7 +113,7 @@ def results():
 cmd = sys.argv[1]
 if cmd == 'ingest':
     sid = sys.argv[2]; tier = sys.argv[3] if len(sys.argv) > 3 else 'quick'
-    src = f'/tmp/seed/{sid}.out'
+    src = os.environ.get('SEED_SRC', '/tmp/seed') + f'/{sid[:3]}.out'
     d = f'/verif/seeded/{sid}'
     os.makedirs(d, exist_ok=True)
     for f in os.listdir(src): shutil.copy(os.path.join(src, f), d)
